@@ -765,4 +765,14 @@ def rule_subscribe_order(ctx):
     c07c(ctx)
 
 
-RULES = [('C06.a', rule_a), ('C06.b', rule_b), ('C06.c', rule_c), ('C06.a', rule_g), ('C06.d', rule_e), ('C06.e+C20.g+C20.i+C20.k', rule_f), ('C07.e', rule_genpub), ('C05.a+C05.b+C14.f+C03.c', rule_d), ('C05.h', rule_builders_fresh), ('C01.e', rule_dispatch_awaited), ('C07.c', rule_subscribe_order)]
+
+def rule_credit_not_written_before_the_request(ctx):
+    """(shared C08.m)  Credit the application grants is transmitted with that value: a request(n) made before the
+    request frame has been written - from on_subscribe - must not go out as a REQUEST_N for a stream the peer does not
+    know yet, where it is dropped (rules/c08.py; known finding F28)."""
+    from .c08 import rule_nothing_before_the_request_frame
+    rule_nothing_before_the_request_frame(ctx)
+
+
+
+RULES = [('C06.a', rule_a), ('C06.b', rule_b), ('C06.c', rule_c), ('C06.a', rule_g), ('C06.d', rule_e), ('C06.e+C20.g+C20.i+C20.k', rule_f), ('C07.e', rule_genpub), ('C05.a+C05.b+C14.f+C03.c', rule_d), ('C05.h', rule_builders_fresh), ('C01.e', rule_dispatch_awaited), ('C07.c', rule_subscribe_order), ('C08.m', rule_credit_not_written_before_the_request)]
